@@ -1,5 +1,5 @@
 (* C14 - Algorithm and attestation-format lists are filtered in order, never rejected. *)
-From Ctap Require Import Base Schema Wire Utf8 Typed Procs Inst Tables ProcTables Finite FramingP WireP FilterP ObRequestSide FnShapes Shapes ObShapeFilters Deps ObDeps ObShapeRequest ObShapeAccessors ObShapeTablesReq.
+From Ctap Require Import Base Schema Wire Utf8 Typed Procs Inst Tables ProcTables Finite FramingP WireP FilterP ObRequestSide FnShapes Shapes ObShapeFilters Deps ObDeps ObShapeRequest ObShapeAccessors ObShapeTablesReq PlainDecls ObPlainMisc.
 Local Open Scope string_scope.
 Local Open Scope Z_scope.
 
@@ -81,6 +81,10 @@ Proof. exact generated_shapes_accessors. Qed.
 Theorem c14_modelled_functions_unchanged_tables_req : shapes_hold fn_shapes shapes_tables_req = true.
 Proof. exact generated_shapes_tables_req. Qed.
 
+(* the plain structures (no serde meaning of their own) whose member types the model relies on *)
+Theorem c14_plain_structures_unchanged_misc : plain_hold raw_decls plain_misc = true.
+Proof. exact generated_plain_misc. Qed.
+
 Eval vm_compute in "ASSUMPTIONS c14_known_param". Print Assumptions c14_known_param.
 Eval vm_compute in "ASSUMPTIONS c14_params_filter". Print Assumptions c14_params_filter.
 Eval vm_compute in "ASSUMPTIONS c14_loop_is_fold". Print Assumptions c14_loop_is_fold.
@@ -93,3 +97,4 @@ Eval vm_compute in "ASSUMPTIONS c14_modelled_dependencies_pinned". Print Assumpt
 Eval vm_compute in "ASSUMPTIONS c14_modelled_functions_unchanged_request". Print Assumptions c14_modelled_functions_unchanged_request.
 Eval vm_compute in "ASSUMPTIONS c14_modelled_functions_unchanged_accessors". Print Assumptions c14_modelled_functions_unchanged_accessors.
 Eval vm_compute in "ASSUMPTIONS c14_modelled_functions_unchanged_tables_req". Print Assumptions c14_modelled_functions_unchanged_tables_req.
+Eval vm_compute in "ASSUMPTIONS c14_plain_structures_unchanged_misc". Print Assumptions c14_plain_structures_unchanged_misc.
